@@ -355,6 +355,12 @@ class StmtMixin:
                 mo = st.mut(base.ref)
                 mo.cols = [z3.Store(c, i, x.t) for c, x in zip(mo.cols, v.items)]
                 return
+            if isinstance(o, HListStruct) and not isinstance(sl, ast.Slice) and isinstance(v, Tup):
+                i = self.norm_index(st, node, self.eval_int(sl, st), o.n, "list store index")
+                mo = st.mut(base.ref)
+                mo.arrs = [z3.Store(a, i, self.as_z3_array(st, x)) for a, x in zip(mo.arrs, v.items)]
+                mo.lens = [z3.Store(ln, i, self.length_of(st, x)) for ln, x in zip(mo.lens, v.items)]
+                return
             if isinstance(o, HDict):
                 kt = self.key_term(st, o, self.eval(sl, st), node)
                 mo = st.mut(base.ref)
@@ -474,6 +480,12 @@ class StmtMixin:
             if grow:
                 o.n = fresh("hvn", INT)
                 st.assume(o.n >= 0)
+        elif isinstance(o, HListStruct):
+            o.arrs = [fresh("hvsa", a.sort()) for a in o.arrs]
+            o.lens = [fresh("hvsl", ln.sort()) for ln in o.lens]
+            k = fresh("k", INT)
+            for ln in o.lens:
+                st.assume(qall([k], z3.Select(ln, k) >= 0, pats=[z3.Select(ln, k)]))
         elif isinstance(o, HListTup):
             o.cols = [fresh("hvc", c.sort()) for c in o.cols]
             if grow:
